@@ -132,7 +132,7 @@ var props = map[string]propMeta{
 	"C15": {
 		Level:       "fault_enumeration",
 		Rule:        "always-on monitor: every value handed to Save is checked against the documented layout (packet || 8-byte little-endian sequence number || 4-byte big-endian FNV-1a over both, recomputed independently) with strictly increasing sequence numbers. family single-byte: a seeded base run leaves 1-3 outbound records (PUBLISH and PUBREL, 40-70 bytes) pending at a stop; the same seed is re-run once per case for EVERY byte position x all 255 other values and EVERY truncation length of every record, applied to the image before AdoptSession; family layout: 2-4 publishers at both levels plus inbound exactly-once traffic, i.e. concurrent Save calls from several goroutines; family load-damage: one byte of a Load result is altered (or the result truncated) at drawn instants (resend, marker lookup, client-identifier load, AdoptSession). Oracles: a single-byte alteration or a value under 12 bytes is reported (warning or error), every PUBLISH/PUBREL on a wire equals a packet genuinely saved under that key, CONNECT carries the original client identifier." + distinctRule + " non-trivial = damage was applied and reported",
-		Assumptions: append([]string{"the single-byte and truncation enumeration is complete for each sampled base image (all records, all positions, all values), not over all images; detection of truncations of 12 bytes or more and of multi-byte damage is measured, not claimed (32-bit checksum)"}, flowAssumptions...),
+		Assumptions: append([]string{"the single-byte and truncation enumeration is complete for each sampled base image (all records, all positions, all values) in the thorough tier; the quick tier samples each sweep of more than 1,500 cases with a stride from a seed-dependent offset (coverage.exhaustive_sweeps tells complete from sampled); not over all images; detection of truncations of 12 bytes or more and of multi-byte damage is measured, not claimed (32-bit checksum)"}, flowAssumptions...),
 		Probes:      []string{"record_layout_checked", "damage_reported", "load_damaged", "damage_alter_publish", "damage_alter_pubrel", "damage_truncate_publish"},
 		QuickS:      25, ThoroughS: 400,
 	},
